@@ -46,6 +46,15 @@ pub struct ExploreOpts {
     pub max_violations: usize,
     /// optional extra per-state hook (fault enumeration etc.)
     pub extra: Option<Arc<dyn Fn(&Ctx, &Config, &[Op], &mut Stats) -> crate::faults::ExtraOut + Send + Sync>>,
+    /// phase number (for markers and the skip list)
+    pub phase: u64,
+    /// transitions that crashed or hung in an earlier attempt of this run
+    pub skips: Vec<crate::contain::Skip>,
+    /// give-up bound for this phase after repeated hangs / crashes
+    pub depth_cap: Option<usize>,
+    /// run the expensive per-state checks (owning-iterator patterns, clone
+    /// product) only in states up to this depth
+    pub heavy_depth_limit: Option<u16>,
 }
 
 pub struct VRecLite {
@@ -98,6 +107,45 @@ impl<'a> Explorer<'a> {
         Explorer { ctx, roots, alpha, states: vec![], keys: vec![], seen: HashMap::new() }
     }
 
+    /// (root, operations after the root's prefix)
+    pub fn path(&self, mut id: u32) -> (usize, Vec<Op>) {
+        let mut ops = vec![];
+        loop {
+            let s = self.states[id as usize];
+            if s.parent == u32::MAX {
+                ops.reverse();
+                return (s.root as usize, ops);
+            }
+            ops.push(self.alpha[s.op as usize]);
+            id = s.parent;
+        }
+    }
+
+    fn skipped<'b>(&self, opts: &'b ExploreOpts, root: usize, path: &[Op], op: Option<Op>, kinds: &[u8]) -> Option<&'b crate::contain::Skip> {
+        opts.skips.iter().find(|s| s.phase == opts.phase && s.root as usize == root && kinds.contains(&s.kind) && s.op == op && s.path == path)
+    }
+
+    fn skip_violation(&self, sk: &crate::contain::Skip, root: usize, hist: &[Op], op: Option<Op>) -> VRec {
+        let crash = !sk.reason.contains("no progress");
+        let owner = op.map(op_owner).unwrap_or(0);
+        let props = if sk.kind == 2 {
+            p(16) | p(17)
+        } else if crash {
+            p(6) | p(7) | p(4) | owner | self.ctx.fault_props
+        } else {
+            p(2) | p(4) | owner | self.ctx.fault_props
+        };
+        VRec {
+            props,
+            rule: if crash { "containment.crash" } else { "containment.hang" },
+            detail: format!("{} (the step was not executed again in this attempt; replaying it reproduces the {})", sk.reason, if crash { "crash" } else { "hang" }),
+            root,
+            hist: hist.to_vec(),
+            op,
+            mode: if sk.kind == 2 { "fault" } else if op.is_some() { "transition" } else { "state" },
+        }
+    }
+
     pub fn history(&self, mut id: u32) -> (usize, Vec<Op>) {
         let mut ops = vec![];
         loop {
@@ -115,10 +163,27 @@ impl<'a> Explorer<'a> {
 
     fn expand(&self, id: u32, opts: &ExploreOpts, do_transitions: bool) -> WorkOut {
         let (root, hist) = self.history(id);
+        let (_, path) = self.path(id);
         let cfg = self.roots[root].cfg;
         let key = self.keys[id as usize].clone();
         let mut out = WorkOut { novel: vec![], new: vec![], viol: vec![], stats: Stats::default(), machinery: None };
-        if let Some(so) = &opts.state_opts {
+        let state_skip = self.skipped(opts, root, &path, None, &[1]).cloned();
+        if let Some(sk) = &state_skip {
+            let vr = self.skip_violation(sk, root, &hist, None);
+            if vr.props & self.ctx.sel != 0 {
+                out.viol.push(vr);
+            }
+        }
+        if let (Some(so), None) = (&opts.state_opts, &state_skip) {
+            crate::contain::mark(1, root as u32, &path, None);
+            let mut so = *so;
+            if let Some(lim) = opts.heavy_depth_limit {
+                if self.states[id as usize].depth > lim {
+                    so.owning = false;
+                    so.clone_product = 0;
+                }
+            }
+            let so = &so;
             let r = check_state(self.ctx, &cfg, &hist, Some(&key), so, &mut out.stats);
             if let Some(m) = r.machinery {
                 out.machinery = Some(format!("{m} (history {:?})", hist));
@@ -128,7 +193,15 @@ impl<'a> Explorer<'a> {
                 out.viol.push(VRec { props: x.props, rule: x.rule, detail: x.detail, root, hist: hist.clone(), op: None, mode: "state" });
             }
         }
-        if let Some(f) = &opts.extra {
+        let fault_skip = self.skipped(opts, root, &path, None, &[2]).cloned();
+        if let Some(sk) = &fault_skip {
+            let vr = self.skip_violation(sk, root, &hist, None);
+            if vr.props & self.ctx.sel != 0 {
+                out.viol.push(vr);
+            }
+        }
+        if let (Some(f), None) = (&opts.extra, &fault_skip) {
+            crate::contain::mark(2, root as u32, &path, None);
             let eo = f(self.ctx, &cfg, &hist, &mut out.stats);
             for x in eo.viol {
                 if x.rule == "machinery" {
@@ -147,6 +220,14 @@ impl<'a> Explorer<'a> {
         }
         if do_transitions && opts.transitions {
             for (oi, &op) in self.alpha.iter().enumerate() {
+                if let Some(sk) = self.skipped(opts, root, &path, Some(op), &[0]) {
+                    let vr = self.skip_violation(sk, root, &hist, Some(op));
+                    if vr.props & self.ctx.sel != 0 {
+                        out.viol.push(vr);
+                    }
+                    continue;
+                }
+                crate::contain::mark(0, root as u32, &path, Some(op));
                 let t = run_transition(self.ctx, &cfg, &hist, op, Some(&key), &mut out.stats);
                 if let Some(m) = t.machinery {
                     out.machinery = Some(format!("{m} (history {:?}, op {:?})", hist, op));
@@ -163,10 +244,12 @@ impl<'a> Explorer<'a> {
                 }
             }
         }
+        crate::contain::idle();
         out
     }
 
     pub fn run(&mut self, opts: &ExploreOpts) -> ExploreResult {
+        crate::contain::set_phase(opts.phase);
         let t0 = Instant::now();
         let mut res = ExploreResult {
             states: 0,
@@ -185,6 +268,33 @@ impl<'a> Explorer<'a> {
             known: Default::default(),
         };
         let mut pending_novel: Vec<(usize, Vec<Op>, Vec<u8>)> = vec![];
+        // a step that hung or killed the engine in an earlier attempt and that
+        // this property owns is a verdict by itself: report it with its full
+        // history and stop
+        for sk in opts.skips.iter().filter(|s| s.phase == opts.phase) {
+            let root = sk.root as usize;
+            if root >= self.roots.len() {
+                continue;
+            }
+            let mut hist = self.roots[root].prefix.clone();
+            hist.extend(sk.path.iter().copied());
+            let vr = self.skip_violation(sk, root, &hist, sk.op);
+            if vr.props & self.ctx.sel != 0 {
+                res.violations.push(vr);
+            }
+        }
+        if !res.violations.is_empty() {
+            res.cap_hit = Some("stopped: a step that hangs or kills the engine is itself a violation of this property".into());
+            // the states / steps judged here were executed by the previous attempt
+            res.states = res.violations.len();
+            res.transitions = res.violations.len() as u64;
+            res.stats.transitions = res.transitions;
+            res.stats.executions = res.transitions;
+            res.samples = res.violations.iter().map(|v| (v.root, v.hist.clone())).collect();
+            res.wall_s = t0.elapsed().as_secs_f64();
+            return res;
+        }
+        let max_depth = opts.depth_cap.map(|c| c.min(opts.max_depth)).unwrap_or(opts.max_depth);
         // roots
         let mut frontier: Vec<u32> = vec![];
         for (ri, r) in self.roots.iter().enumerate() {
@@ -211,7 +321,7 @@ impl<'a> Explorer<'a> {
         let mut depth = 0usize;
         while !frontier.is_empty() {
             res.level_sizes.push(frontier.len());
-            let do_transitions = depth < opts.max_depth;
+            let do_transitions = depth < max_depth;
             let outs = self.parallel(&frontier, opts, do_transitions);
             let mut next = vec![];
             let mut stop = false;
@@ -252,7 +362,11 @@ impl<'a> Explorer<'a> {
                 break;
             }
             if !do_transitions {
-                res.cap_hit = Some(format!("depth bound {} reached with {} unexpanded states (state checks were still run on them)", opts.max_depth, frontier.len()));
+                res.cap_hit = Some(if opts.depth_cap.is_some() && max_depth < opts.max_depth {
+                    format!("gave up at depth {} after repeated hangs / crashes of the code under test at that depth ({} unexpanded states)", max_depth, frontier.len())
+                } else {
+                    format!("depth bound {} reached with {} unexpanded states (state checks were still run on them)", opts.max_depth, frontier.len())
+                });
                 break;
             }
             depth += 1;
